@@ -20,15 +20,15 @@ import (
 // Case is one evaluated case: the replayable input, the Coq term carrying the input together with
 // what the implementation did on it, and bookkeeping for the evidence file.
 type Case struct {
-	Input      any      `json:"input"`           // replayable (JSON) form of the input
-	Observed   any      `json:"observed"`        // what the implementation returned, human readable
-	Key        string   `json:"key,omitempty"`   // "" = D_ok; otherwise the known-finding domain the INPUT lies in
-	Keys       map[string]string `json:"keys,omitempty"` // per property (multi-monitor drivers): property id -> domain key
-	Coq        string   `json:"-"`               // Coq term of the property's `case` type
-	Sig        string   `json:"-"`               // canonical signature (distinctness)
-	Nontrivial bool     `json:"nontrivial"`      // by the property's stated rule
-	Tags       []string `json:"tags,omitempty"`  // distribution buckets
-	GoViol     string   `json:"go_viol,omitempty"` // violation observed on the Go side only (panic, ...)
+	Input      any               `json:"input"`             // replayable (JSON) form of the input
+	Observed   any               `json:"observed"`          // what the implementation returned, human readable
+	Key        string            `json:"key,omitempty"`     // "" = D_ok; otherwise the known-finding domain the INPUT lies in
+	Keys       map[string]string `json:"keys,omitempty"`    // per property (multi-monitor drivers): property id -> domain key
+	Coq        string            `json:"-"`                 // Coq term of the property's `case` type
+	Sig        string            `json:"-"`                 // canonical signature (distinctness)
+	Nontrivial bool              `json:"nontrivial"`        // by the property's stated rule
+	Tags       []string          `json:"tags,omitempty"`    // distribution buckets
+	GoViol     string            `json:"go_viol,omitempty"` // violation observed on the Go side only (panic, ...)
 }
 
 // Prop is implemented by every function-level property driver.
@@ -55,17 +55,17 @@ type MultiMonitor interface {
 
 // Summary is written next to the case files.
 type Summary struct {
-	Prop        string         `json:"prop"`
-	Seed        int64          `json:"seed"`
-	N           int            `json:"n"`
-	Shards      []string       `json:"shards"`
-	ShardSizes  []int          `json:"shard_sizes"`
-	Rule        string         `json:"rule"`
-	Distinct    int            `json:"distinct"`
-	DistinctNT  int            `json:"distinct_nontrivial"`
-	Dist        map[string]int `json:"distribution"`
-	Cases       []Case         `json:"cases"`
-	Extra       map[string]any `json:"extra,omitempty"`
+	Prop       string         `json:"prop"`
+	Seed       int64          `json:"seed"`
+	N          int            `json:"n"`
+	Shards     []string       `json:"shards"`
+	ShardSizes []int          `json:"shard_sizes"`
+	Rule       string         `json:"rule"`
+	Distinct   int            `json:"distinct"`
+	DistinctNT int            `json:"distinct_nontrivial"`
+	Dist       map[string]int `json:"distribution"`
+	Cases      []Case         `json:"cases"`
+	Extra      map[string]any `json:"extra,omitempty"`
 }
 
 const shardSize = 400
@@ -97,14 +97,26 @@ func Main(p Prop, args []string) {
 		}
 	}
 	cases := make([]Case, len(inputs))
-	limit := 30 * time.Second
+	// a time limit per case; a driver whose cases legitimately run long and share process-wide state (the joint-model
+	// simulator: a history that is abandoned would go on running beside the next ones) opts out with CaseTimeout() = 0
+	limit := 60 * time.Second
 	if v, err := strconv.Atoi(os.Getenv("VERIF_CASE_TIMEOUT")); err == nil && v > 0 {
 		limit = time.Duration(v) * time.Second
+	}
+	if ct, ok := p.(interface{ CaseTimeout() time.Duration }); ok {
+		limit = ct.CaseTimeout()
 	}
 	var hung []int
 	for i, in := range inputs {
 		// a case that does not come back (an endless loop in the implementation) must not take the whole run with it: it is
 		// reported as a violation with this input (its place in the case file is taken by a copy of a finished case)
+		if limit <= 0 {
+			cases[i] = p.Run(in)
+			if cases[i].Input == nil {
+				cases[i].Input = in
+			}
+			continue
+		}
 		done := make(chan Case, 1)
 		go func(in any) { done <- p.Run(in) }(in)
 		select {
